@@ -225,6 +225,26 @@ def gen_numbers(cs, rng, thorough):
             cs.atom("cpx-real-%s-imag-%s" % (kind[ra], kind[ia]), ("cpx", ("flo", specials[ra]), ("flo", specials[ia])), note="%s %s" % (ra, ia))
 
 
+def gen_complex_matrix(cs):
+    """complex numbers whose parts are drawn from every shape of real number generated elsewhere (fixnum, bignum, ratio with
+       fixnum / bignum numerator and denominator, both signs, flonums plain / with exponent / signed zero / infinite / NaN),
+       in ALL pairings (chibi represents mixed exactness as well).  The flonums are values that round-trip as reals
+       (the decimal->double defect has its own classes), so a rejection here concerns the complex syntax."""
+    big, big2 = 12345678901234567890123, 98765432109876543210987654321
+    shapes = {
+        "int": [("int", v) for v in (5, -7, 1, -1, big, -big)],
+        "ratio": [("rat", Fraction(a, b)) for a, b in ((2, 3), (-2, 3), (7, big), (-7, big))],
+        "ratio-bignum-numerator": [("rat", Fraction(a, b)) for a, b in ((big, 7), (-big, 7), (big2, big), (-big2, big))],
+        "flo": [("flo", dbits(v)) for v in (1.5, -2.25, 1e21, -1e-7, 0.0, -0.0)],
+        "nonfinite": [("flo", b) for b in (0x7FF0000000000000, 0xFFF0000000000000, 0x7FF8000000000000)],
+    }
+    for rs, rl in shapes.items():
+        for ims, il in shapes.items():
+            for a in rl + ([("int", 0)] if rs == "int" else []):
+                for b in il:
+                    cs.atom("cpxm-real-%s-imag-%s" % (rs, ims), ("cpx", a, b))
+
+
 def half_to_double_bits(h):
     return dbits(struct.unpack(">e", struct.pack(">H", h))[0])
 
@@ -1271,6 +1291,7 @@ def run():
         gen_labels(cs, rng, thorough)
         gen_trees(cs, rng, thorough)
         gen_numbers(cs, rng, thorough)
+        gen_complex_matrix(cs)
         gen_flonums(cs, rng, thorough, 1000000 if thorough else 10000)
         gen_chars(cs, rng, thorough)
         gen_strings(cs, rng, thorough)
